@@ -44,6 +44,19 @@ def NoSelfRef (c : Configuration) : Prop := ∀ u, ¬ MemberOf c u u
 /-- no function curve reaches itself through members (in one or more steps) -/
 def Acyclic (c : Configuration) : Prop := ∀ u, ¬ TransGen (MemberOf c) u u
 
+/-- every function curve has at least one member -/
+def FunctionsNonempty (c : Configuration) : Prop :=
+  ∀ cc ∈ c.curves, ∀ f, cc.function = some f → f.curves ≠ []
+
+/-- no linear curve has an empty non-nil step map -/
+def NoEmptySteps (c : Configuration) : Prop :=
+  ∀ cc ∈ c.curves, ∀ l, cc.linear = some l → l.steps ≠ some []
+
+/-- every `controlAlgorithm` block that is present selects `direct` or `pid`, so that
+    `initializeFanControllers` builds a (non-nil) control loop -/
+def AlgoInstantiable (c : Configuration) : Prop :=
+  ∀ f ∈ c.fans, ∀ ca, f.controlAlgorithm = some ca → ca.direct.isSome = true ∨ ca.pid.isSome = true
+
 /-! ## the sequencing combinators -/
 
 @[simp] theorem check_ok (b : Bool) (e : VErr) : check b e = .ok () ↔ b = false := by
@@ -107,7 +120,8 @@ theorem validateMembers_ok (c : Configuration) (id : String) (ms : List String) 
 
 theorem validateFunction_ok (c : Configuration) (id : String) (fo : Option FunctionCfg) :
     validateFunction c id fo = .ok () ↔
-      ∀ f, fo = some f → f.type ∈ supportedTypes ∧ ∀ m ∈ f.curves, m ≠ id ∧ CurveDefined c m := by
+      ∀ f, fo = some f → f.type ∈ supportedTypes ∧ f.curves ≠ [] ∧
+        ∀ m ∈ f.curves, m ≠ id ∧ CurveDefined c m := by
   cases fo with
   | none => simp [validateFunction]
   | some f =>
@@ -115,11 +129,13 @@ theorem validateFunction_ok (c : Configuration) (id : String) (fo : Option Funct
 
 theorem validateLinear_ok (c : Configuration) (id : String) (lo : Option LinearCfg) :
     validateLinear c id lo = .ok () ↔
-      ∀ l, lo = some l → l.sensor ≠ "" ∧ SensorDefined c l.sensor := by
+      ∀ l, lo = some l → l.sensor ≠ "" ∧ SensorDefined c l.sensor ∧ l.steps ≠ some [] := by
   cases lo with
   | none => simp [validateLinear]
   | some l =>
-    simp [validateLinear, sensorIdExists_iff, String.length_eq_zero_iff]
+    obtain ⟨sensor, mn, mx, steps⟩ := l
+    rcases steps with _ | _ | ⟨a, as⟩ <;>
+      simp [validateLinear, sensorIdExists_iff, String.length_eq_zero_iff]
 
 theorem validatePid_ok (c : Configuration) (id : String) (po : Option PidCfg) :
     validatePid c id po = .ok () ↔
@@ -132,8 +148,9 @@ theorem validatePid_ok (c : Configuration) (id : String) (po : Option PidCfg) :
 theorem validateCurveEntry_ok (c : Configuration) (cc : CurveConfig) :
     validateCurveEntry c cc = .ok () ↔
       cc.subConfigs = 1 ∧
-      (∀ f, cc.function = some f → f.type ∈ supportedTypes ∧ ∀ m ∈ f.curves, m ≠ cc.id ∧ CurveDefined c m) ∧
-      (∀ l, cc.linear = some l → l.sensor ≠ "" ∧ SensorDefined c l.sensor) ∧
+      (∀ f, cc.function = some f → f.type ∈ supportedTypes ∧ f.curves ≠ [] ∧
+        ∀ m ∈ f.curves, m ≠ cc.id ∧ CurveDefined c m) ∧
+      (∀ l, cc.linear = some l → l.sensor ≠ "" ∧ SensorDefined c l.sensor ∧ l.steps ≠ some []) ∧
       (∀ p, cc.pid = some p → p.sensor ≠ "" ∧ SensorDefined c p.sensor ∧ allZero p.p p.i p.d = false) := by
   simp only [validateCurveEntry, seq_ok, check_ok, decide_eq_false_iff_not, validateFunction_ok,
     validateLinear_ok, validatePid_ok]
@@ -440,16 +457,16 @@ theorem accepted_refsResolve (h : validateConfig c permOk = .ok ()) : refsResolv
   obtain ⟨_, hc, _, hf⟩ := (validateConfig_ok c permOk).1 h
   have hce := fun cc hcc => (validateCurveEntry_ok c cc).1 (((validateCurves_ok c).1 hc).2.1 cc hcc)
   refine ⟨fun cc hcc l hl => ?_, fun cc hcc p hp => ?_, fun cc hcc f hfn m hm => ?_, fun f hfm => ?_⟩
-  · exact ((hce cc hcc).2.2.1 l hl).2
+  · exact ((hce cc hcc).2.2.1 l hl).2.1
   · exact ((hce cc hcc).2.2.2 p hp).2.1
-  · exact (((hce cc hcc).2.1 f hfn).2 m hm).2
+  · exact (((hce cc hcc).2.1 f hfn).2.2 m hm).2
   · exact ((validateFanEntry_ok c f).1 (((validateFans_ok c).1 hf).2 f hfm)).2.2.1
 
 theorem accepted_noSelfRef (h : validateConfig c permOk = .ok ()) : NoSelfRef c := by
   obtain ⟨_, hc, _, _⟩ := (validateConfig_ok c permOk).1 h
   rintro u ⟨cc, hcc, hid, f, hfn, hu⟩
   have := (validateCurveEntry_ok c cc).1 (((validateCurves_ok c).1 hc).2.1 cc hcc)
-  exact ((this.2.1 f hfn).2 u hu).1 hid.symm
+  exact ((this.2.1 f hfn).2.2 u hu).1 hid.symm
 
 theorem accepted_acyclic (h : validateConfig c permOk = .ok ()) : Acyclic c := by
   have hself := accepted_noSelfRef h
@@ -466,6 +483,32 @@ theorem accepted_fnType (h : validateConfig c permOk = .ok ()) :
   obtain ⟨_, hc, _, _⟩ := (validateConfig_ok c permOk).1 h
   intro cc hcc f hfn
   exact (((validateCurveEntry_ok c cc).1 (((validateCurves_ok c).1 hc).2.1 cc hcc)).2.1 f hfn).1
+
+/-- every function curve has at least one member (check added by the fix of C11) -/
+theorem accepted_functionsNonempty (h : validateConfig c permOk = .ok ()) : FunctionsNonempty c := by
+  obtain ⟨_, hc, _, _⟩ := (validateConfig_ok c permOk).1 h
+  intro cc hcc f hfn
+  exact (((validateCurveEntry_ok c cc).1 (((validateCurves_ok c).1 hc).2.1 cc hcc)).2.1 f hfn).2.1
+
+/-- no linear curve has an empty non-nil step map (check added by the fix of C11) -/
+theorem accepted_noEmptySteps (h : validateConfig c permOk = .ok ()) : NoEmptySteps c := by
+  obtain ⟨_, hc, _, _⟩ := (validateConfig_ok c permOk).1 h
+  intro cc hcc l hl
+  exact (((validateCurveEntry_ok c cc).1 (((validateCurves_ok c).1 hc).2.1 cc hcc)).2.2.1 l hl).2.2
+
+theorem validateCtrlAlg_some (id : String) (ca : CtrlAlgCfg)
+    (h : validateCtrlAlg id (some ca) = .ok ()) : ca.direct.isSome = true ∨ ca.pid.isSome = true := by
+  simp only [validateCtrlAlg, seq_ok, check_ok] at h
+  obtain ⟨d, p⟩ := ca
+  cases d <;> cases p <;> simp_all
+
+/-- a present `controlAlgorithm` selects direct or pid (check added by the fix of C11) -/
+theorem accepted_algoInstantiable (h : validateConfig c permOk = .ok ()) : AlgoInstantiable c := by
+  obtain ⟨_, _, _, hf⟩ := (validateConfig_ok c permOk).1 h
+  intro f hfm ca hca
+  have := ((validateFanEntry_ok c f).1 (((validateFans_ok c).1 hf).2 f hfm)).2.2.2.1
+  rw [hca] at this
+  exact validateCtrlAlg_some f.id ca this
 
 end sound
 
@@ -577,8 +620,9 @@ theorem docCurve_ok (c : Configuration) (cc : CurveConfig) (h : docCurve cc = tr
   · refine ⟨by simp [CurveConfig.subConfigs, b2n], ?_, by simp, by simp⟩
     intro f' hf'
     cases hf'
-    simp only [docFunction, Bool.and_eq_true, List.contains_eq_mem, decide_eq_true_eq] at h
-    exact ⟨h.1, hf f rfl⟩
+    simp only [docFunction, Bool.and_eq_true, List.contains_eq_mem, decide_eq_true_eq,
+      Bool.not_eq_true', List.isEmpty_eq_false_iff] at h
+    exact ⟨h.1, h.2, hf f rfl⟩
   · refine ⟨by simp [CurveConfig.subConfigs, b2n], by simp, by simp, ?_⟩
     intro p' hp'
     cases hp'
@@ -588,7 +632,10 @@ theorem docCurve_ok (c : Configuration) (cc : CurveConfig) (h : docCurve cc = tr
     intro l' hl'
     cases hl'
     simp only [docLinear, Bool.and_eq_true, bne_iff_ne, ne_eq] at h
-    exact ⟨h.1, hl l rfl⟩
+    refine ⟨h.1, hl l rfl, ?_⟩
+    intro hst
+    rw [hst] at h
+    simp at h
 
 /-- completeness: a configuration assembled from the documented forms whose references resolve,
     whose ids are unique and whose member graph is acyclic is accepted (the configuration file
@@ -851,12 +898,6 @@ theorem evalCurve_total (indef : Int) (sensors : SensorTable) (now : Int) (σ : 
 def SensorsDefined (c : Configuration) (sensors : SensorTable) : Prop :=
   ∀ s ∈ c.sensors, ∃ sv, sensors.get? s.id = some sv ∧ sv.avg.isFinite = true ∧
     ∃ x, sv.value = .ok x ∧ x.isFinite = true
-
-def FunctionsNonempty (c : Configuration) : Prop :=
-  ∀ cc ∈ c.curves, ∀ f, cc.function = some f → f.curves ≠ []
-
-def NoEmptySteps (c : Configuration) : Prop :=
-  ∀ cc ∈ c.curves, ∀ l, cc.linear = some l → l.steps ≠ some []
 
 theorem toCurve_some (cc : CurveConfig) (cu : Curve) (h : toCurve cc = some cu) :
     cu.id = cc.id ∧
